@@ -178,7 +178,7 @@ pub fn cache_weak(sim: &mut Sim, code_prefix: &str, d: &Delivery, pre: &CacheSna
 /// definition later data sets must be decoded with (C06) - also when a *later* set of the same
 /// packet could not be decoded (C07: the undecodable set must leave the caches as they were,
 /// which includes what the packet had taught the parser up to that point).
-pub fn templates_around_unknown_kept(sim: &mut Sim, code_prefix: &str, d: &Delivery, w: &Walk, post: &CacheSnap) {
+pub fn templates_around_unknown_kept(sim: &mut Sim, code_prefix: &str, d: &Delivery, w: &Walk, r: &[NetflowPacket], pre: &CacheSnap, post: &CacheSnap) {
     if !w.conformant() {
         return;
     }
@@ -193,6 +193,14 @@ pub fn templates_around_unknown_kept(sim: &mut Sim, code_prefix: &str, d: &Deliv
         };
         if sets.iter().any(|s| s.tainted) {
             continue;
+        }
+        if proto == Proto::V9 {
+            // only where the library did stop at this packet (whether it must is C07's clause):
+            // otherwise later packets of the buffer may legitimately have redefined the id
+            let stopped_here = matches!(r.last(), Some(NetflowPacket::Error(e)) if e.remaining.len() == d.buf.len() - pk.start);
+            if !stopped_here {
+                continue;
+            }
         }
         // latest definition per id among the template records of this packet (V9: those in
         // front of the undecodable flowset, the only ones the walk reaches)
@@ -215,7 +223,12 @@ pub fn templates_around_unknown_kept(sim: &mut Sim, code_prefix: &str, d: &Deliv
         }
         for (id, def) in latest {
             let key = (proto, def.is_options(), id);
-            if post.get(&key) != Some(def) {
+            // the violation this clause is after: the definition the packet carried is gone
+            // again (rolled back / cleared), i.e. the cache says what it said before the call.
+            // A different *new* definition may stem from a later set the library went on to
+            // process; that is not this clause's business.
+            let sib = (proto, !def.is_options(), id);
+            if post.get(&key) != Some(def) && post.get(&key) == pre.get(&key) && post.get(&sib) == pre.get(&sib) {
                 sim.find(
                     &format!("{}-template-of-failing-packet-not-kept", code_prefix),
                     d.ev,
@@ -437,6 +450,17 @@ fn c02(sim: &mut Sim, d: &Delivery) -> u64 {
     outcome_class(&r)
 }
 
+/// Oracles that locate packets in the buffer through the result's own decomposition (C02) do
+/// not judge a result that is not a decomposition: that is C02's finding, not theirs.
+pub fn decomposes(sim: &mut Sim, d: &Delivery, r: &[NetflowPacket]) -> bool {
+    let allowed = sim.cfgs[d.p].allowed.clone();
+    if c02_relation(d.buf, &allowed, r).is_err() {
+        sim.stats.probe("not_judged_result_is_not_a_decomposition");
+        return false;
+    }
+    true
+}
+
 // ------------------------------------------------------------------------------------------
 // C04 / C05 (and the decode part of C06, C07, C17)
 // ------------------------------------------------------------------------------------------
@@ -458,7 +482,7 @@ pub fn compare_decode(
     r: &[NetflowPacket],
 ) -> DecodeReport {
     let mut rep = DecodeReport { sets_checked: 0, records_checked: 0 };
-    if !w.conformant() {
+    if !w.conformant() || !decomposes(sim, d, r) {
         return rep;
     }
     let Some(offs) = offsets(d.buf, r) else { return rep };
@@ -800,7 +824,7 @@ fn c06(sim: &mut Sim, d: &Delivery) -> u64 {
     }
     let model_before = sim.models[d.p].clone();
     let w = model_step(sim, d, &post);
-    templates_around_unknown_kept(sim, "C06", d, &w, &post);
+    templates_around_unknown_kept(sim, "C06", d, &w, &r, &pre, &post);
     if w.fully_known() {
         // (1) exact refinement: the real caches are the model's
         let real = strip_tainted(&post, &sim.models[d.p]);
@@ -940,12 +964,18 @@ fn c07(sim: &mut Sim, d: &Delivery) -> u64 {
         return outcome_class(&r) + 4;
     }
     let has_unknown = matches!(w.stop, Stop::V9Unknown { .. }) || w.pkts.iter().any(|p| p.has_unknown);
+    // the V9 clause (error carrying the bytes from the packet on) is itself about the shape of
+    // the result; the IPFIX clauses locate messages through the decomposition
+    let ipfix_only = !matches!(w.stop, Stop::V9Unknown { .. });
+    if has_unknown && ipfix_only && !decomposes(sim, d, &r) {
+        return outcome_class(&r) + 8;
+    }
     if has_unknown {
         sim.stats.oracle_evals += 1;
         sim.stats.nontrivial = true;
         // caches: nothing may come from the undecodable data set
         cache_weak(sim, "C07", d, &pre, &post);
-        templates_around_unknown_kept(sim, "C07", d, &w, &post);
+        templates_around_unknown_kept(sim, "C07", d, &w, &r, &pre, &post);
         let Some(offs) = offsets(d.buf, &r) else { return 1 };
         if let Stop::V9Unknown { off } = w.stop {
             sim.stats.probe("v9_data_for_unknown_template");
@@ -1258,7 +1288,12 @@ fn c12(sim: &mut Sim, d: &Delivery) -> u64 {
             break;
         }
     }
-    // longest prefix of rf whose version fields are all in S
+    // longest prefix of rf whose version fields are all in S (located through rf's own
+    // decomposition of the buffer: if that is broken, C02 reports it, not this check)
+    if c02_relation(d.buf, &all, &rf).is_err() || c02_relation(d.buf, &s_set, &r).is_err() {
+        sim.stats.probe("not_judged_result_is_not_a_decomposition");
+        return outcome_class(&r);
+    }
     let Some(offs) = offsets(d.buf, &rf) else { return 1 };
     let mut keep = 0usize;
     let mut stop_off = d.buf.len();
